@@ -116,7 +116,7 @@ def check_subquery(new_tbl, child_tbl, *, is_right: bool = False):
                 for i in range(1, len(new_chain) - 1):
                     new_chain[i].child = new_chain[i + 1]
                 if is_right:
-                    assert isinstance(new_tbl._ast, verbs.Join)
+                    assert isinstance(new_tbl._ast, verbs.Join | verbs.Union)
                     new_chain[0].right = new_chain[1]
                 else:
                     new_chain[0].child = new_chain[1]
